@@ -179,12 +179,16 @@ Definition normalize_split (e : env) (o : n_opts) (original : str) : res nres :=
   let* url := if infer_redirection_o o then infer_redirection e original else Ok original in
   normalize_core e o original url.
 
+(* urlunsplit(result)[2:] if result.netloc else urlunsplit(result) *)
+Definition drop_netloc_slashes (sp : SplitResult) : str :=
+  match netloc sp with [] => urlunsplit sp | _ => drop 2 (urlunsplit sp) end.
+
 Definition normalize_url (e : env) (o : n_opts) (url : str) : res str :=
   let* r := normalize_split e o url in
   match r with
   | NOriginal s => Ok s
   | NSplit sp has_proto =>
-      if strip_protocol_o o || negb has_proto then Ok (drop 2 (urlunsplit sp)) else Ok (urlunsplit sp)
+      if strip_protocol_o o || negb has_proto then Ok (drop_netloc_slashes sp) else Ok (urlunsplit sp)
   end.
 
 (* normalize_hostname / get_normalized_hostname *)
@@ -262,7 +266,7 @@ Definition fingerprint_split (e : env) (t : snode) (strip_suffix : bool) (url : 
   end.
 
 Definition fingerprint_url (e : env) (t : snode) (strip_suffix : bool) (url : str) : res str :=
-  let* r := fingerprint_split e t strip_suffix url in Ok (drop 2 (urlunsplit r)).
+  let* r := fingerprint_split e t strip_suffix url in Ok (drop_netloc_slashes r).
 
 Definition fingerprint_hostname (e : env) (t : snode) (strip_suffix : bool) (h : str) : res str :=
   let* h := normalize_hostname e true h in
